@@ -16,7 +16,7 @@ RULE = ("pairs (start,end) from the boundary set {m*2^(17+3k)+d : |d|<=2} U {0,2
         "exhaustively x {gff,bed} x {one,set}, random pairs beyond; a pair is non-trivial when an end lies "
         "within +-2 of a bin boundary and its two ends fall in different finest bins (or it is out of range); "
         "distinct = distinct (start,end,fmt,one) / distinct interval pairs for the overlap clause")
-REQUIRED = ["bins.bins contract evaluations", "overlap pairs checked", "Feature.bin checked", "stored bin column checked"]
+REQUIRED = ["stored bin after coordinate edit checked", "bins.bins contract evaluations", "overlap pairs checked", "Feature.bin checked", "stored bin column checked"]
 ASSUMPTIONS = [
     "the specification in gvmon/models/binspec.py is a faithful reading of the statement",
     "'bed' is judged through bins(s,e,'bed') == bins(s+1,e,'gff') for non-empty half-open intervals only",
@@ -123,6 +123,8 @@ def execute(ctx, case):
         if hb != expect:
             ctx.violation(case, {"why": "_bin_from_dict %r != bins(start,end) %r" % (hb, expect)})
         drain(ctx, case)
+    elif kind == "edited":
+        edited_insert(ctx, case)
     elif kind == "stored":
         # import lines with these coordinates; read the raw bin column back
         coords = case["coords"]
@@ -149,6 +151,60 @@ def execute(ctx, case):
                     break
         db.conn.close()
         drain(ctx, case)
+
+
+def edited_insert(ctx, case):
+    """Bin assigned *on insert*: coordinates edited between construction and insert (a transform that shifts
+    features; a fetched feature edited and written back with update(replace)) must be stored under bins(start, end)
+    of the coordinates actually stored, and a query around the new position must find the feature."""
+    import os
+    import gffutils
+    from gffutils import bins as B
+
+    moves = case["moves"]          # [(start, end, new_start, new_end)]
+    lines = ["chr1\tsrc\tgene\t%d\t%d\t.\t+\t.\tID=g%d" % (s, e, i) for i, (s, e, ns, ne) in enumerate(moves)]
+    target = {"g%d" % i: (ns, ne) for i, (s, e, ns, ne) in enumerate(moves)}
+    dbfn = ctx.tmp(".db")
+    try:
+        if case["how"] == "transform":
+            def tr(f):
+                f.start, f.end = target[f.attributes["ID"][0]]
+                return f
+            db = gffutils.create_db("\n".join(lines), dbfn, from_string=True, transform=tr)
+        else:
+            db = gffutils.create_db("\n".join(lines), dbfn, from_string=True)
+            edited = []
+            for f in db.all_features():
+                f.start, f.end = target[f.id]
+                edited.append(f)
+            db.update(edited, merge_strategy="replace", make_backup=False)
+        rows = {r[0]: r for r in db.conn.execute("SELECT id, start, end, bin FROM features")}
+        for fid, (ns, ne) in target.items():
+            ctx.mon("stored bin after coordinate edit checked")
+            r = rows.get(fid)
+            if r is None or (r[1], r[2]) != (ns, ne):
+                ctx.violation(case, {"why": "edited feature %s not stored at its new coordinates" % fid, "row": list(r) if r else None})
+                return
+            why = S.check_one(ns, ne, r[3])
+            if why or r[3] != B.bins(ns, ne, one=True):
+                ctx.violation(case, {"why": "bin stored on insert is not bins(start, end) of the stored coordinates: %s" % (why or "%r != %r" % (r[3], B.bins(ns, ne, one=True))),
+                                     "feature": fid, "stored": [r[1], r[2], r[3]], "how": case["how"]})
+                return
+            if S.in_range(ns, ne) and ns <= ne:
+                hits = [f.id for f in db.region(("chr1", ns, ne), completely_within=True)]
+                hits2 = [f.id for f in db.all_features(limit=("chr1", ns, ne))]
+                if fid not in hits or fid not in hits2:
+                    ctx.violation(case, {"why": "a feature stored after a coordinate edit is not found by a query around its position",
+                                         "feature": fid, "coords": [ns, ne], "region": hits, "limit": hits2, "how": case["how"]})
+                    return
+        db.conn.close()
+    except Exception as ex:
+        ctx.violation(case, {"why": "insert after a coordinate edit raised %r" % (ex,), "how": case["how"]})
+    finally:
+        for p in (dbfn, dbfn + ".bak"):
+            if os.path.exists(p):
+                os.unlink(p)
+    drain(ctx, case)
 
 
 def run(ctx):
@@ -227,6 +283,17 @@ def run(ctx):
         case = {"kind": "stored", "coords": coords}
         execute(ctx, case)
         ctx.case(("stored", coords), True, cls="imported boundary features")
+    # 6. bin assigned on insert after the coordinates were edited
+    inr2 = [v for v in vals if 1 <= v < S.LIMIT - 10]
+    for _ in range(ctx.budget(60, 2400)):
+        moves = []
+        for _ in range(8):
+            s0 = rng.choice(inr2); e0 = min(S.LIMIT - 1, s0 + rng.randrange(0, 3000))
+            s1 = rng.choice(inr2); e1 = min(S.LIMIT - 1, s1 + rng.choice([0, 1, 2, 500, 2 ** 17, 2 ** 20 + 3]))
+            moves.append((s0, e0, s1, e1))
+        case = {"kind": "edited", "how": rng.choice(["transform", "update-replace"]), "moves": moves}
+        execute(ctx, case)
+        ctx.case(("edited", case["how"], moves), True, sample=case if rng.random() < 0.1 else None, cls="insert after coordinate edit")
     ctx.mon("bins.bins contract evaluations", contracts.EVALS["bins.bins"])
 
 MANIFEST = {
